@@ -133,7 +133,7 @@ func TestC03(t *testing.T) {
 }
 
 func TestC04(t *testing.T) {
-	simCheck(t, spec{Prop: "C04", Profiles: []string{"elect", "conf", "crash"}, Steps: [2]int{300, 900},
+	simCheck(t, spec{Prop: "C04", Profiles: []string{"elect", "conf", "crash", "asnap"}, Steps: [2]int{300, 900},
 		RuleText: caseText + "non-trivial = an election was won after entries had been committed by an earlier leader (leader.elected_with_history), or by a restarted node, or under a joint config",
 		Rule: func(c *sim.CaseStats) bool {
 			return has(c, "leader.elected_with_history", "leader.elected_after_restart", "leader.elected_joint")
@@ -155,7 +155,7 @@ func TestC06(t *testing.T) {
 }
 
 func TestC07(t *testing.T) {
-	simCheck(t, spec{Prop: "C07", Profiles: []string{"base", "crash", "elect"}, Steps: [2]int{300, 900},
+	simCheck(t, spec{Prop: "C07", Profiles: []string{"base", "crash", "elect", "snap", "asnap"}, Steps: [2]int{300, 900},
 		RuleText: caseText + "non-trivial = >=2 exposed term changes and at least one restart",
 		Rule:     func(c *sim.CaseStats) bool { return ge(c, "hs.term_change", 2) && has(c, "restart") }})
 }
